@@ -55,6 +55,11 @@ func NewInt() Trees {
 	t := avl.NewOrdered[int]()
 	return &intTrees{[]*avl.Tree[int]{&t}}
 }
+// NewIntCmp: an int tree built with avl.New(cmp), e.g. a call-counting comparator (clones inherit it).
+func NewIntCmp(cmp func(a, b int) int) Trees {
+	t := avl.New(cmp)
+	return &intTrees{[]*avl.Tree[int]{&t}}
+}
 func NewPair() Trees {
 	t := avl.New(comparePair)
 	return &pairTrees{[]*avl.Tree[Pair]{&t}}
@@ -188,8 +193,12 @@ func CoqOut(o Out) string {
 	return "OBadHandle"
 }
 
-// CoqCase prints a case for Avl/Check.v.
-func CoqCase(ops []Op, outs []Out) string {
+// CoqCase prints a case for Avl/Check.v (comparator calls not recorded).
+func CoqCase(ops []Op, outs []Out) string { return CoqCaseCalls(ops, outs, nil) }
+
+// CoqCaseCalls prints a case with the number of comparator calls the real code made in each op
+// (one entry per op, -1 = not recorded for that op; nil = not recorded at all).
+func CoqCaseCalls(ops []Op, outs []Out, calls []int) string {
 	a := make([]string, len(ops))
 	b := make([]string, len(outs))
 	for i := range ops {
@@ -198,5 +207,5 @@ func CoqCase(ops []Op, outs []Out) string {
 	for i := range outs {
 		b[i] = CoqOut(outs[i])
 	}
-	return "Case " + core.List(a) + " " + core.List(b)
+	return "Case " + core.List(a) + " " + core.List(b) + " " + core.ZList(calls)
 }
